@@ -131,11 +131,11 @@ def radix_facts(interp, n, base):
     d = digits_uf(base)(n)
     parse, parses = parse_uf(base)
     ex = interp.ex
-    ex.assume(z3.Length(d) >= 1)
+    alphabet = {2: '01', 8: '01234567', 16: '0123456789ABCDEF'}[base]
+    facts = [z3.Length(d) >= 1, parses(d), parse(d) == n, z3.InRe(d, z3.Plus(charset_re(alphabet)))]
     for k in range(1, 12):
-        ex.assume((z3.Length(d) <= k) == (n < base ** k))
-    ex.assume(parses(d))
-    ex.assume(parse(d) == n)
+        facts.append((z3.Length(d) <= k) == (n < base ** k))
+    ex.add_axiom(z3.Implies(n >= 0, z3.And(*facts)))
     return d
 
 
@@ -151,11 +151,12 @@ def b_radix(base):
         a = z3.If(t >= 0, t, -t)
         d = radix_facts(interp, a, base)
         low = uf('str_lower', S, S)(d)
-        interp.ex.assume(uf('str_upper', S, S)(low) == d)
-        interp.ex.assume(z3.Length(low) == z3.Length(d))
+        interp.ex.add_axiom(uf('str_upper', S, S)(low) == d)
+        interp.ex.add_axiom(z3.Length(low) == z3.Length(d))
         prefix = {2: '0b', 8: '0o', 16: '0x'}[base]
-        return mk_str(z3.If(t >= 0, z3.Concat(z3.StringVal(prefix), low),
-                            z3.Concat(z3.StringVal('-' + prefix), low)))
+        if interp.ex.branch(t >= 0):
+            return mk_str(z3.Concat(z3.StringVal(prefix), low))
+        return mk_str(z3.Concat(z3.StringVal('-' + prefix), low))
     return impl
 
 
@@ -171,14 +172,19 @@ def int_base(interp, v, base, node):
             interp.raise_exc('ValueError', str(e), node)
     parse, parses = parse_uf(base)
     trust(interp, 'A-RADIXSTR: int(s, b) = PARSE_b(s) when PARSES_b(s), else ValueError; '
-                  'PARSES_b(s) and no sign => 0 <= PARSE_b(s) < b^len(s)')
+                  'strings over the digit alphabet parse (non-empty) to 0 <= PARSE_b(s) < b^len(s); other strings may or may not parse')
+    alphabet = {2: '01', 8: '01234567', 16: '0123456789ABCDEFabcdef'}.get(base)
+    if alphabet:
+        cs = charset_re(alphabet)
+        interp.ex.add_axiom(z3.Implies(z3.InRe(v.t, z3.Plus(cs)), parses(v.t)))
+        interp.ex.add_axiom(z3.Implies(z3.Length(v.t) == 0, z3.Not(parses(v.t))))
+        interp.ex.add_axiom(z3.Implies(z3.And(z3.InRe(v.t, z3.Star(cs)), parses(v.t)), parse(v.t) >= 0))
     if interp.ex.branch(parses(v.t)):
         r = parse(v.t)
         # digit strings of length <= k denote values < b^k unless signed: Python also
         # accepts a sign, whitespace and underscores; a negative value needs a '-'.
-        interp.ex.assume(z3.Implies(z3.Not(z3.Contains(v.t, z3.StringVal('-'))), r >= 0))
         for k in range(1, 12):
-            interp.ex.assume(z3.Implies(z3.Length(v.t) <= k, z3.And(r < base ** k, r > -(base ** k))))
+            interp.ex.add_axiom(z3.Implies(z3.Length(v.t) <= k, z3.And(r < base ** k, r > -(base ** k))))
         return mk_int(r)
     interp.raise_exc('ValueError', 'invalid literal for int() with base', node)
 
@@ -850,6 +856,8 @@ def value_getattr(interp, obj, name, node):
     r = heap.try_getattr(interp, obj, name, node)
     if r is not heap.NOPE:
         return r
+    if isinstance(obj, TokenizerConsts) and hasattr(obj, name):
+        return getattr(obj, name)
     raise Unsupported(f'attribute {name} of {type(obj).__name__}', node)
 
 
@@ -985,21 +993,35 @@ def s_zfill(interp, s, args, kwargs, node):
     n = z3.Length(st)
     pad = uf('zeros', I, S)
     k = z3.If(wt > n, wt - n, z3.IntVal(0))
-    interp.ex.assume(z3.Length(pad(k)) == k)
-    interp.ex.assume(z3.Not(z3.Or(z3.PrefixOf(z3.StringVal('-'), st), z3.PrefixOf(z3.StringVal('+'), st))))
-    p2, ps2 = parse_uf(2)
-    # zero padding does not change the parsed value in any base
-    res = z3.Concat(pad(k), st)
+    interp.ex.add_axiom(z3.And(z3.Length(pad(k)) == k, z3.InRe(pad(k), z3.Star(z3.Re(z3.StringVal('0'))))))
+    signed = z3.Or(z3.PrefixOf(z3.StringVal('-'), st), z3.PrefixOf(z3.StringVal('+'), st))
+    # zero padding does not change the parsed value in any base; a signed string is
+    # padded after its sign (left uninterpreted: zfill_signed)
+    res = z3.If(signed, uf('zfill_signed', S, I, S)(st, wt), z3.Concat(pad(k), st))
     for base in (2, 8, 16):
         parse, parses = parse_uf(base)
-        interp.ex.assume(parses(res) == parses(st))
-        interp.ex.assume(z3.Implies(parses(st), parse(res) == parse(st)))
+        cs = charset_re({2: '01', 8: '01234567', 16: '0123456789ABCDEFabcdef'}[base])
+        interp.ex.add_axiom(z3.Implies(z3.InRe(st, z3.Plus(cs)),
+                                       z3.And(parses(res), parses(st), parse(res) == parse(st))))
     return mk_str(res)
+
+
+def charset_re(chars):
+    return z3.Union(*[z3.Re(z3.StringVal(c)) for c in chars]) if len(chars) > 1 else z3.Re(z3.StringVal(chars))
 
 
 def s_strip(interp, s, args, kwargs, node):
     if not sym.any_sym(s, *args):
         return s.strip(*args)
+    if args and isinstance(args[0], str) and args[0]:
+        chars = args[0]
+        trust(interp, 'A-STRIP: s.strip(chars) is a substring of s that is empty exactly when every '
+                      'character of s is in chars')
+        st = str_term(s)
+        r = uf('strip_' + ''.join(f'{ord(c):02x}' for c in chars), S, S)(st)
+        interp.ex.add_axiom(z3.And((z3.Length(r) == 0) == z3.InRe(st, z3.Star(charset_re(chars))),
+                                   z3.Length(r) <= z3.Length(st), z3.Contains(st, r)))
+        return mk_str(r)
     raise Unsupported('str.strip symbolic', node)
 
 
@@ -1327,3 +1349,31 @@ def make_builtins(world):
     for e in sym.EXC_PARENTS:
         reg(e, None)
     return b
+
+
+# ---------------------------------------------------------------------------
+# symbolic twins of spec primitives (see SYMBOLIC_TWINS in the sidecars)
+# ---------------------------------------------------------------------------
+
+def sx_digits(interp, args, kwargs, node):
+    """digits(u, base): upper-case rendering of u >= 0 in base 2/8/16."""
+    u, base = args
+    if isinstance(u, int):
+        return {2: '{:b}', 8: '{:o}', 16: '{:X}'}[base].format(u)
+    return mk_str(radix_facts(interp, as_int_term(u), base))
+
+
+def sx_valid_digits(interp, args, kwargs, node):
+    s_, base = args
+    alphabet = {2: '01', 8: '01234567', 16: '0123456789ABCDEFabcdef'}[base]
+    if isinstance(s_, str):
+        return len(s_) > 0 and all(c in alphabet for c in s_)
+    return mk_bool(z3.InRe(s_.t, z3.Plus(charset_re(alphabet))))
+
+
+def sx_parse_digits(interp, args, kwargs, node):
+    s_, base = args
+    if isinstance(s_, str):
+        return int(s_, base)
+    parse, parses = parse_uf(base)
+    return mk_int(parse(s_.t))
